@@ -27,5 +27,5 @@ def run(tier: str) -> Check:
     repo, _ = fill(check, tier, floors={"parse_paths": 100, "rule_paths": 200})
     from ..masks import apply as mask_axes
 
-    mask_axes(check, repo, "MASK-AXES", 12)
+    mask_axes(check, repo, "MASK-AXES", 5)  # a floor against vacuity, not a census: consolidating duplicated tests is a legitimate edit
     return check
